@@ -1180,4 +1180,205 @@ theorem css_url_closed (uri : List Char) (h : isURLUnquoted uri = true) :
 example : isURLUnquoted (S "a/b.png?x=1#y") = true := by decide
 
 
+/-! ## the raw path -/
+
+theorem reads_raw_tok (t : Tok) (F : List Char) (hok : rawTokOk t = true) (hfol : folOk t F) :
+    Reads t.data F (significant (rawFlat t)) := by
+  match t, hok, hfol with
+  | .mk tt data args, hok, hfol =>
+    simp only [rawTokOk, Tok.tt, Tok.data] at hok ⊢
+    have hfol' : folOk (.mk tt data []) F := hfol
+    by_cases hf : tt = .function
+    · subst hf
+      simp only [tokOk, beq_self_eq_true, if_true, Bool.and_eq_true] at hok
+      obtain ⟨hp, _⟩ := lexOk_iff hok.1.1
+      have : rawFlat (.mk .function data args) = [(.function, data)] := by simp [rawFlat, Tok.tt, Tok.data]
+      rw [this]
+      exact Reads.tok data F .function hp (fun n hn => next_function data F hok.1.1 hok.1.2 n hn)
+    · by_cases hu : tt = .url
+      · subst hu
+        have : rawFlat (.mk .url data args) = urlToks data := by simp [rawFlat, Tok.tt, Tok.data]
+        rw [this]
+        simp only [tokOk] at hok
+        exact reads_url data F (by simpa using hok)
+      · have : rawFlat (.mk tt data args) = [(tt, data)] := by simp [rawFlat, Tok.tt, Tok.data, hu]
+        rw [this]
+        exact reads_simple tt data F hf hu hok hfol'
+
+theorem rawOk_cons (t : Tok) (r : List Tok) (h : rawOk (t :: r) = true) :
+    rawTokOk t = true ∧ rawOk r = true ∧ (∀ u r', r = u :: r' → sepOk t u = true ∧ rawTokOk u = true) := by
+  cases r with
+  | nil => exact ⟨by simpa [rawOk] using h, by simp [rawOk], fun _ _ hh => by simp at hh⟩
+  | cons u r' =>
+    simp only [rawOk, Bool.and_eq_true] at h
+    refine ⟨h.1.1, h.2, ?_⟩
+    intro u' r'' hh
+    have h1 : u = u' := (List.cons.inj hh).1
+    subst h1
+    refine ⟨h.1.2, ?_⟩
+    cases r' with
+    | nil => simpa [rawOk] using h.2
+    | cons _ _ => simp only [rawOk, Bool.and_eq_true] at h; exact h.2.1.1
+
+theorem rawTokOk_class (t : Tok) (h : rawTokOk t = true) :
+    (selfDelim t = true ∨ t.tt = .whitespace ∨ isPlain t.tt = true) ∧
+    t.data ≠ [] ∧ (t.tt ≠ .whitespace → isWs (t.data.headD 'x') = false) ∧ (t.tt = .whitespace → t.data = [' ']) := by
+  match t, h with
+  | .mk tt data args, h =>
+    simp only [rawTokOk, Tok.tt, Tok.data] at h
+    have c := tokOk_class (.mk tt data []) h
+    have d := tokOk_head (.mk tt data []) h
+    refine ⟨c, d.1, d.2, ?_⟩
+    intro hw
+    simp only [Tok.tt] at hw
+    subst hw
+    simp only [Tok.data]
+    simpa [tokOk] using h
+
+/-- what `writeRaw` puts behind a component may follow it -/
+theorem folOk_raw (t : Tok) (r : List Tok) (k : List Char) (h : rawOk (t :: r) = true)
+    (hk : stopStr k = true) (hkw : isWs (k.headD 'x') = false) :
+    folOk t (writeRaw (some t.data) r ++ k) := by
+  obtain ⟨ht, _, hnext⟩ := rawOk_cons t r h
+  obtain ⟨hcl, _, _, hwd⟩ := rawTokOk_class t ht
+  cases r with
+  | nil =>
+    simp only [writeRaw, List.nil_append]
+    rcases hcl with hc | hc | hc
+    · exact Or.inl ⟨hc, fun _ _ => stopStr_head_ne_star k hk⟩
+    · exact Or.inr (Or.inl ⟨hc, hkw⟩)
+    · exact Or.inr (Or.inr ⟨hc, hk⟩)
+  | cons u r' =>
+    obtain ⟨hs, hu⟩ := hnext u r' rfl
+    obtain ⟨_, hune, huws, _⟩ := rawTokOk_class u hu
+    simp only [writeRaw]
+    by_cases hg : opensComment t.data u.data = true
+    · simp only [hg, if_true, List.append_assoc, List.cons_append, List.nil_append]
+      rcases hcl with hc | hc | hc
+      · exact Or.inl ⟨hc, fun _ _ => by simp⟩
+      · exfalso
+        rw [hwd hc] at hg
+        simp [opensComment] at hg
+      · exact Or.inr (Or.inr ⟨hc, space_stop _⟩)
+    · simp only [hg, Bool.false_eq_true, if_false, List.nil_append, List.append_assoc]
+      have hh1 : (u.data ++ (writeRaw (some u.data) r' ++ k)).head? = u.data.head? := by
+        cases hd : u.data with
+        | nil => exact absurd hd hune
+        | cons c d => rfl
+      have hh2 : (u.data ++ (writeRaw (some u.data) r' ++ k)).headD 'x' = u.data.headD 'x' := by
+        cases hd : u.data with
+        | nil => exact absurd hd hune
+        | cons c d => rfl
+      simp only [sepOk, Bool.or_eq_true, Bool.and_eq_true, bne_iff_ne, ne_eq, beq_iff_eq] at hs
+      rcases hs with (hs | hs) | hs
+      · refine Or.inl ⟨hs, ?_⟩
+        intro _ hdd
+        rw [hh1]
+        intro hstar
+        apply hg
+        simp [opensComment, hdd, hstar]
+      · refine Or.inr (Or.inl ⟨hs.1, ?_⟩)
+        rw [hh2]
+        exact huws hs.2
+      · exact Or.inr (Or.inr ⟨hs.1, stopStr_of_head _ _ hs.2⟩)
+
+theorem reads_raw : ∀ (comps : List Tok) (prev : Option (List Char)) (k : List Char),
+    rawOk comps = true → stopStr k = true → isWs (k.headD 'x') = false →
+    Reads (writeRaw prev comps) k (significant (comps.flatMap rawFlat)) := by
+  intro comps
+  induction comps with
+  | nil => intro _ k _ _ _; simp only [writeRaw, List.flatMap_nil]; exact Reads.nil k
+  | cons t r ih =>
+    intro prev k h hk hkw
+    obtain ⟨ht, hr, _⟩ := rawOk_cons t r h
+    obtain ⟨_, hne, _, _⟩ := rawTokOk_class t ht
+    have hfol := folOk_raw t r k h hk hkw
+    have r2 := reads_raw_tok t _ ht hfol
+    have r3 := ih (some t.data) k hr hk hkw
+    have r23 := Reads.append r2 r3
+    simp only [writeRaw, List.flatMap_cons, significant_append]
+    have hsp : ∀ g : List Char, (g = [' '] ∧ t.data.head? = some '*') ∨ g = [] →
+        Reads (g ++ (t.data ++ writeRaw (some t.data) r)) k
+          (significant (rawFlat t) ++ significant (r.flatMap rawFlat)) := by
+      intro g hg
+      rcases hg with ⟨hg, hstar⟩ | hg
+      · subst hg
+        have r1 : Reads [' '] ((t.data ++ writeRaw (some t.data) r) ++ k) (significant [(.whitespace, [' '])]) := by
+          apply Reads.tok [' '] _ .whitespace (by simp)
+          intro n _
+          apply next_ws
+          cases hd : t.data with
+          | nil => exact absurd hd hne
+          | cons c d =>
+            rw [hd] at hstar
+            have : c = '*' := by simpa using hstar
+            subst this
+            simp only [List.cons_append, List.append_eq, List.nil_append, List.headD_cons]
+            decide
+        have := Reads.append r1 r23
+        simpa [significant] using this
+      · subst hg; simpa using r23
+    rw [List.append_assoc]
+    apply hsp
+    cases prev with
+    | none => exact Or.inr rfl
+    | some p =>
+      simp only []
+      by_cases c2 : opensComment p t.data = true
+      · left
+        simp only [c2, if_true, true_and]
+        simp only [opensComment, Bool.and_eq_true, beq_iff_eq] at c2
+        exact c2.2
+      · simp [c2]
+
+/-- **css_raw_retokenises** — the raw path of `minifyDeclaration` (values with brackets, `a=b`, `progid:…`, `!ie`:
+    `parseDeclaration` gives up and the parser's components are written as they are, `/` and `*` kept apart): for all
+    component lists that are admissible (`rawOk`: every lexeme a closed token of its type, the parser's single-space
+    white-space tokens, neighbours pairwise safe — the parser dropped the white space around `, / : ! =`), every
+    `important` flag and every context `k` that starts with a stop code point other than white space, the independent
+    tokeniser reads the written bytes as exactly the components. -/
+theorem css_raw_retokenises (comps : List Tok) (important : Bool) (k : List Char)
+    (h : rawOk comps = true) (hk : stopStr k = true) (hkw : isWs (k.headD 'x') = false) :
+    ∃ n', k.length ≤ n' ∧
+      significant (tokenise (writeRaw none comps ++ (if important then S "!important" else []) ++ k)) =
+        significant (comps.flatMap rawFlat) ++ importantToks important ++ significant (tokAux n' k []) := by
+  cases important with
+  | false =>
+    simp only [importantToks, Bool.false_eq_true, if_false, List.append_nil]
+    exact reads_tokenise _ k _ (reads_raw comps none k h hk hkw)
+  | true =>
+    simp only [importantToks, if_true]
+    have hk' : stopStr (S "!important" ++ k) = true := by
+      simp [S, stopStr, U, isName, isNameStart, isDigit, isNl]
+    have hkw' : isWs ((S "!important" ++ k).headD 'x') = false := by simp [S, isWs]
+    have r1 := reads_raw comps none (S "!important" ++ k) h hk' hkw'
+    have r2 := reads_important k hk
+    exact reads_tokenise _ k _ (Reads.append r1 r2)
+
+example : rawOk [.mk .leftBracket (S "[") [], .mk .ident (S "a") [], .mk .rightBracket (S "]") [],
+    .mk .whitespace (S " ") [], .mk .function (S "minmax(") [], .mk .dimension (S "1em") [], .mk .comma (S ",") [],
+    .mk .dimension (S "1fr") [], .mk .rightParen (S ")") [], .mk .whitespace (S " ") [], .mk .ident (S "c") [],
+    .mk .delim (S "=") [], .mk .number (S "1") [], .mk .delim (S "/") [], .mk .delim (S "*") []] = true := by decide
+
+/-- the full statement for the raw path: every component a closed token of its type, nothing about neighbours -/
+def css_raw_retokenises_full : Prop :=
+  ∀ (comps : List Tok) (k : List Char), comps.all rawTokOk = true → stopStr k = true → isWs (k.headD 'x') = false →
+    ∃ n', k.length ≤ n' ∧
+      significant (tokenise (writeRaw none comps ++ k)) =
+        significant (comps.flatMap rawFlat) ++ significant (tokAux n' k [])
+
+/-- `<` `!` `--x` (what the parser makes of `b:< ! --x`: it drops the white space around `!`) is written `<!--x`, a CDO
+    token (known finding K-C09-CSS-3, reproduced on the real code) -/
+theorem css_raw_retokenises_counterexample : ¬ css_raw_retokenises_full := by
+  intro h
+  obtain ⟨n', _, e⟩ := h [.mk .delim (S "<") [], .mk .delim (S "!") [], .mk .ident (S "--x") []] [';']
+    (by decide) (by decide) (by decide)
+  have e2 := congrArg (List.take 1) e
+  have l : List.take 1 (significant (tokenise (writeRaw none
+      [.mk .delim (S "<") [], .mk .delim (S "!") [], .mk .ident (S "--x") []] ++ [';']))) = [(.cdo, S "<!--")] := by
+    decide
+  rw [l] at e2
+  simp [rawFlat, significant, S, Tok.tt, Tok.data] at e2
+
+
 end Verif.Proofs.C09Css
